@@ -433,6 +433,7 @@ func (o *vf6Output) Send(ctx context.Context, reader ChannelReader) error {
 	case <-done:
 	case <-time.After(wait()):
 		miss()
+		vf6MissNote.Store("read")
 		reader.Close()
 		<-done
 		rerr = fmt.Errorf("timeout")
@@ -451,6 +452,7 @@ func (o *vf6Output) Send(ctx context.Context, reader ChannelReader) error {
 	case <-o.incr():
 	case <-time.After(wait()):
 		miss()
+		vf6MissNote.Store("writer-phase")
 	}
 	deadline := time.Now().Add(wait())
 	for time.Now().Before(deadline) {
@@ -468,6 +470,7 @@ func (o *vf6Output) Send(ctx context.Context, reader ChannelReader) error {
 	}
 	if !o.ingested {
 		miss()
+		vf6MissNote.Store("ingest")
 	}
 	if o.failSnapshot && o.kind == "rdb" {
 		o.mu.Lock()
@@ -767,9 +770,17 @@ func (h *vf6H) begin(attempt int) {
 	h.sink = &vf6Sink{}
 }
 
+var vf6MissNote atomic.Value
+
 func (h *vf6H) again(attempt int) bool {
 	s := h.sink
 	if h.missed.Load() {
+		if len(s.ops) > 0 {
+			last := s.ops[len(s.ops)-1]
+			h.t.Logf("wait limit hit (%v), attempt %d, faultPlan=%q, ops of the case=%d, first op: %s ; last: %s | %s", vf6MissNote.Load(), attempt, h.faultPlan, len(s.ops), s.ops[0][0], last[0], strings.Join(last[1:], " | "))
+		} else {
+			h.t.Logf("wait limit hit (%v), attempt %d, before any op of the case", vf6MissNote.Load(), attempt)
+		}
 		if attempt < 1 {
 			// a wait hit its hard limit: stalled harness or broken build - the attempt is not used
 			h.s.Count("stalled_attempts_repeated")
@@ -1037,6 +1048,11 @@ func (h *vf6H) round(c *vf6Case, inner Channel, replay map[string]interface{}, r
 			} else {
 				res.after.hasAof, res.after.aofL, res.after.aofR = true, cl, cr
 			}
+		}
+		if len(proxy.wr) > 0 && strings.HasPrefix(proxy.wr[0], "rdb:") {
+			// the failing call came after the snapshot writer was created: what the cache
+			// holds now is the source's snapshot (and log)
+			res.after.logId, res.after.tokId = "", src.id1
 		}
 		if !res.after.hasRdb && !res.after.hasAof {
 			res.after.logId, res.after.tokId = "", arid
@@ -1513,6 +1529,7 @@ func (o *vf6RealOut) sendReal(ctx context.Context, reader ChannelReader) error {
 		}
 		if !reached {
 			miss()
+			vf6MissNote.Store("position-stored")
 		}
 		if want <= rec.left {
 			time.Sleep(3 * time.Millisecond) // nothing to replay: let the sender idle a moment
@@ -1522,6 +1539,7 @@ func (o *vf6RealOut) sendReal(ctx context.Context, reader ChannelReader) error {
 		case <-done:
 		case <-time.After(wait()):
 			miss()
+			vf6MissNote.Store("sendaof-stop")
 			rec.readErr = "SendAof-did-not-stop"
 		}
 	}
@@ -1530,6 +1548,7 @@ func (o *vf6RealOut) sendReal(ctx context.Context, reader ChannelReader) error {
 	case <-rec.incr():
 	case <-time.After(wait()):
 		miss()
+		vf6MissNote.Store("writer-phase")
 	}
 	deadline := time.Now().Add(wait())
 	for time.Now().Before(deadline) {
@@ -1545,6 +1564,7 @@ func (o *vf6RealOut) sendReal(ctx context.Context, reader ChannelReader) error {
 	}
 	if !rec.ingested {
 		miss()
+		vf6MissNote.Store("ingest")
 	}
 	return err
 }
@@ -2346,6 +2366,20 @@ func TestVerifC06(t *testing.T) {
 	}
 
 	for _, l := range vfutil.Corpus("C06") {
+		if strings.HasPrefix(l, "fault ") {
+			// fault <plan> <rounds> sync … : the first round's bookkeeping call <plan> fails, then <rounds>-1 more connections
+			f := strings.SplitN(l, " ", 4)
+			c, err := vf6ParseCase(f[3])
+			if err != nil {
+				t.Fatalf("corpus line: %v: %s", err, l)
+			}
+			c.keepSrc = true
+			nr, _ := strconv.Atoi(f[2])
+			h.faultPlan = f[1]
+			runCase(c, "corpus", nr)
+			h.faultPlan, h.fault = "", ""
+			continue
+		}
 		if strings.HasPrefix(l, "gcloop ") {
 			// gcloop <m|d> <maxSize> <logSize> <left> <size> <n>
 			f := strings.Fields(l)
@@ -2427,7 +2461,15 @@ func TestVerifC06(t *testing.T) {
 				h.faultPlan = vfutil.Pick(r, []string{"reset1", "out_setrunid", "chan_del"})
 				s.Count("fault_template_newid_over_old_cache")
 			}
-			runCase(c, "fault", 2+r.Intn(2))
+			// follow-up connections only where the failing call precedes the creation of
+			// writer and reader (syncMeta's own calls on the template): the state a run
+			// aborted later leaves in the channel (unstarted writer, started reader) is the
+			// cache's business, and outside CacheWF the cache after the round is not described
+			nr := 1
+			if c.keepSrc && !c.nonContig {
+				nr = 2 + r.Intn(2)
+			}
+			runCase(c, "fault", nr)
 			h.faultPlan, h.fault = "", ""
 			continue
 		}
